@@ -57,7 +57,11 @@ def catalog(window, gcols):
 
 def build():
     cases = []
-    for ck, (ctext, cspec) in CONDS.items():
+    # every comparison also written value-first (1 < t.ts for t.ts > 1): the same condition, the same window
+    VF = {'>': '1 < t.ts', '>=': '1 <= t.ts', '=': '1 = t.ts', '<': '2 > t.ts', '<=': '2 >= t.ts', '>latest': 'latest < t.ts'}
+    for ck, (ctext, cspec) in list(CONDS.items()) + [(k_ + '~vf', (VF[k_], CONDS[k_][1])) for k_ in VF]:
+        vf_ = ck.endswith('~vf')
+        ck = ck.split('~')[0]
         for ng, (tab, cols, gcols) in GROUPS.items():
             for window in (1, 2):
                 for pf in ([], [['g', 1]]) if gcols else ([],):
@@ -70,7 +74,9 @@ def build():
                                 shapes['filters-first'] = ' and '.join(pfc + [ctext])
                                 shapes['time-in-group'] = '%s and (%s and %s)' % (pfc[0], pfc[0], ctext)
                                 shapes['group-first'] = '(%s and %s) and %s' % (ctext, pfc[0], pfc[0])
-                            if limit is None and ck in ('>', '>=', '=', '<', '<=', 'between'):
+                            if vf_ and (limit not in (None, 1) or side == 'left'):
+                                continue
+                            if limit is None and not vf_ and ck in ('>', '>=', '=', '<', '<=', 'between'):
                                 # the bound written as a typed literal / in parentheses (the same number, another node kind)
                                 import re as _re
                                 for bk, fn in (('cast', lambda m: 'cast(%s as int)' % m.group(0)), ('colons', lambda m: '%s::int' % m.group(0)),
@@ -139,6 +145,10 @@ def _plan(c):
         for a in getattr(n, 'args', []):
             if type(a).__name__ == 'Identifier':
                 a.parts = [a.parts[-1]]
+        mir = {'<': '>', '<=': '>=', '>': '<', '>=': '<=', '=': '='}
+        if type(n).__name__ == 'BinaryOperation' and len(n.args) == 2 and type(n.args[0]).__name__ != 'Identifier' \
+                and type(n.args[1]).__name__ == 'Identifier' and str(n.op) in mir:
+            n.op, n.args = mir[str(n.op)], [n.args[1], n.args[0]]      # value-first spelling of the same comparison
         return jdump(proj(n))
     out = dict(c)
     try:
